@@ -496,6 +496,11 @@ def vec_eq_shim(u, m):
             ';']
 
 
+def nlines(out):
+    """number of the last line of the text whose pieces are `out` (a piece may span several lines)"""
+    return sum(x.count('\n') + 1 for x in out)
+
+
 def gen_c(b, blocks, path):
     mode = 'IEEE' if b.mode == 'IEEE' else 'EXACT'
     u = get_unit(b.unit, blocks, b.mode)
@@ -576,7 +581,7 @@ def gen_c(b, blocks, path):
         if cb is not None and (fi.cname == b.fn or fi.cname in b.replace_eff):
             for kind, tags, text in clause_lines(cb, enforce=(fi.cname == b.fn)):
                 out.append('  ' + text)
-                linemap[len(out)] = (fi.cname, kind, tags, text)
+                linemap[nlines(out)] = (fi.cname, kind, tags, text)
         out.append('{')
         out += fi.body
         out.append('}')
@@ -610,11 +615,11 @@ def gen_c(b, blocks, path):
             out.append('  %s bs_result = %s;' % (rt, call))
         for s in b.post:
             out.append('  ' + s)
-            linemap[len(out)] = (hname, 'post', None, s)
+            linemap[nlines(out)] = (hname, 'post', None, s)
     else:
         for s in b.body:
             out.append('  ' + s)
-            linemap[len(out)] = (hname, 'body', None, s)
+            linemap[nlines(out)] = (hname, 'body', None, s)
     out.append('  BS_CANARY();')
     out.append('}')
     txt = '\n'.join(out) + '\n'
@@ -673,7 +678,12 @@ def solver_env(solver):
 
 def cbmc_cmd(gb, solver, extra):
     flag = '--z3' if solver in ('z3', 'z3new') else '--' + solver
-    return ['cbmc', flag] + CBMC_FLAGS + extra + [gb]
+    base = list(CBMC_FLAGS)
+    if '--unwind' in extra:
+        # cbmc keeps the FIRST of two --unwind options: the default must go when a block sets its own
+        i = base.index('--unwind')
+        del base[i:i + 2]
+    return ['cbmc', flag] + base + extra + [gb]
 
 
 _uniq = itertools.count()
@@ -807,13 +817,17 @@ def list_properties(gb):
     return ids
 
 
-def decide(gb, b, tmo, only=None, extra=None):
+def decide(gb, b, tmo, only=None, extra=None, single=None):
     extra0 = list(extra or [])
     """all obligations of one instrumented program: first in one query per solver; if no solver settles
     that within FAST_TIMEOUT, obligation by obligation (the conjunction is often much harder than its parts)"""
     solvers = b.solvers or SOLVERS
     # blocks with loop contracts go obligation by obligation at once: their single query rarely finishes
-    outs = [] if (b.loops or getattr(b, 'split', False) or only is not None) else portfolio(gb, solvers, extra0, min(tmo, FAST_TIMEOUT))
+    if single is not None:
+        # bounded stand-ins: symbolic execution of the unwound program dominates, so one query for everything first
+        outs = portfolio(gb, solvers, extra0, single)
+    else:
+        outs = [] if (b.loops or getattr(b, 'split', False) or only is not None) else portfolio(gb, solvers, extra0, min(tmo, FAST_TIMEOUT))
     if outs and outs[0]['status'] == 'done' and all(x.get('status') in ('SUCCESS', 'FAILURE') for x in outs[0]['results']):
         for p in outs[0]['results']:
             p['solver'] = outs[0]['solver']
@@ -883,7 +897,28 @@ def refute_small(r, b, cfile, hname, cmd, ids, tmo, want_all=False):
     rc, out, err, dt = sh(cmd2, 300)
     if rc != 0:
         return set()
-    results, how = decide(base + '.t.gb', b, min(tmo, 120), only=ids, extra=['--unwind', '10'])
+    cap = getattr(b, 'cap', 8)
+    extra = ['--unwind', str(max(10, cap + 2))]
+    if want_all and cap < 8:
+        # a bounded stand-in with a small cap: data-dependent loops run at most cap + 1 times; loops with a literal
+        # bound in their condition get that bound (unwinding assertions stay on, so a wrong guess is an UNKNOWN, not a pass)
+        extra = ['--unwind', str(cap + 2)]
+        lines = open(cfile).read().split('\n')
+        rc, out, err, dt = sh(['goto-instrument', '--show-loops', base + '.t.gb'], 120)
+        us = []
+        for m in re.finditer(r'Loop (\S+):\n\s+file (\S+) line (\d+) function', out or ''):
+            lid, f, ln = m.group(1), m.group(2), int(m.group(3))
+            if os.path.abspath(f) == os.path.abspath(cfile) and 0 < ln <= len(lines):
+                mm = re.search(r'(?:<|!=)\s*\(?([0-9UL+\-() ]+?)\)*;', lines[ln - 1])
+                if mm:
+                    try:
+                        us.append('%s:%d' % (lid, int(eval(re.sub(r'[UL]', '', mm.group(1)))) + 2))
+                    except Exception:
+                        pass
+        if us:
+            extra += ['--unwindset', ','.join(us)]
+    results, how = decide(base + '.t.gb', b, min(tmo, 120) if not want_all else tmo, only=ids, extra=extra,
+                          single=None)
     if want_all:
         return results
     if results is None:
